@@ -1,7 +1,7 @@
 (* C11/Props.v -- property C11, the part carried by theorems: documentation blocks are attached to exactly one entity by
    the two rules, and the active parameter of signature help follows position or `keyword=`.  Statements only. *)
 From Coq Require Import ZArith String.
-From FV Require C11.DefList C11.Level.
+From FV Require C11.DefList C11.Level C11.ParenMatch.
 From FV Require Import Base.Str C11.Model C11.Proofs.
 
 (* "exactly the documentation comment attached to that entity and to no other": for every sequence of documentation blocks and
@@ -138,3 +138,18 @@ Example argument_index_nonvacuous :
   Level.argument_index ([99; 97; 108; 108; 32; 115]%N ++ Level.LPAR :: Level.join_comma (map Level.render_arg l)) = 3.
 Proof. exact Level.level_nonvacuous. Qed.
 Print Assumptions argument_index_nonvacuous.
+
+(* the selector of a declaration is read up to its closing parenthesis: for every text between the parentheses (nested
+   parentheses, literals holding parentheses and the other quote character) and everything behind it *)
+Theorem closing_parenthesis_of_a_selector_found : forall a rest,
+  ParenMatch.inner a = true -> ParenMatch.find_paren_match (a ++ ParenMatch.RPAR :: rest) = Some (length a).
+Proof. exact ParenMatch.closing_parenthesis_found. Qed.
+Print Assumptions closing_parenthesis_of_a_selector_found.
+
+(* the rule of the pinned revision (one flag per quote character, toggled) loses the parenthesis behind "can't" *)
+Theorem C11_refuted_quote_flags_toggled :
+  ParenMatch.inner ParenMatch.witness_inner = true /\
+  ParenMatch.scan_pinned (ParenMatch.witness_inner ++ ParenMatch.RPAR :: ParenMatch.witness_rest) 1 false false 0 = None /\
+  ParenMatch.find_paren_match (ParenMatch.witness_inner ++ ParenMatch.RPAR :: ParenMatch.witness_rest) = Some 16.
+Proof. exact ParenMatch.pinned_refuted. Qed.
+Print Assumptions C11_refuted_quote_flags_toggled.
